@@ -22,6 +22,55 @@ type faultKV struct {
 	kind  string // "", commit, set, delete
 	ref   string
 	fired int
+
+	iterPrefix string // a Find starting with this prefix gets a failing iterator (one shot)
+	iterRows   int    // rows it yields before Next() turns false
+	iterArmed  bool
+}
+
+// armIter: the next Find whose start key begins with prefix returns an iterator that yields at most
+// rows entries, then Next() == false, and whose Close() reports an error (a transient read fault).
+func (f *faultKV) armIter(prefix string, rows int) {
+	f.mu.Lock()
+	f.iterPrefix, f.iterRows, f.iterArmed = prefix, rows, true
+	f.mu.Unlock()
+}
+
+func (f *faultKV) disarmIter() bool {
+	f.mu.Lock()
+	defer f.mu.Unlock()
+	was := f.iterArmed
+	f.iterArmed = false
+	return !was // true: the fault was consumed
+}
+
+type faultIter struct {
+	sorted.Iterator
+	left int
+}
+
+func (it *faultIter) Next() bool {
+	if it.left <= 0 {
+		return false
+	}
+	it.left--
+	return it.Iterator.Next()
+}
+
+func (it *faultIter) Close() error {
+	it.Iterator.Close()
+	return errInjected
+}
+
+func (f *faultKV) Find(start, end string) sorted.Iterator {
+	inner := f.KeyValue.Find(start, end)
+	f.mu.Lock()
+	defer f.mu.Unlock()
+	if f.iterArmed && start != "" && strings.HasPrefix(start, f.iterPrefix) {
+		f.iterArmed = false
+		return &faultIter{Iterator: inner, left: f.iterRows}
+	}
+	return inner
 }
 
 var errInjected = errors.New("c05: injected sorted.KeyValue failure")
